@@ -35,6 +35,7 @@ type item struct {
 	L      gen.Layout
 	HasICC bool
 	Well   bool // well-formed with known layout (C18)
+	Light  bool // hostile variant: exercised at full length and a few cuts only
 }
 
 func readCases(path string) ([]concrete.Case, error) {
@@ -189,6 +190,28 @@ func buildCorpus(caseFiles []string, repo string, tier string, rng *rand.Rand) (
 	junk["riffwebp+pngchunks"] = append([]byte("RIFF\x00\x10\x00\x00WEBP"), pngBody[8:]...)
 	junk["jpeg-then-png"] = append(append([]byte{}, jpegBody...), pngBody...)
 	junk["png-damaged-ihdr-type"] = func() []byte { d := append([]byte{}, pngBody...); d[13] = 'X'; return d }()
+	// hostile variants of valid files (the C09 matrix in miniature): declared lengths
+	// and counts driven to boundary values, including the ones that make a parser
+	// panic internally (recovered) - the replay stream and autometa must not care
+	isd := iccSeeds()
+	for _, hs := range append(containerSeeds(isd[0].Data), containerSeeds(isd[1].Data)[0]) {
+		fnames := make([]string, 0, len(hs.Fields))
+		for k := range hs.Fields {
+			fnames = append(fnames, k)
+		}
+		sort.Strings(fnames)
+		for _, fn := range fnames {
+			for occ, p := range hs.Fields[fn] {
+				v := p.get(hs.Data)
+				W := uint64(1) << (8 * p.Width)
+				for _, nv := range []uint64{0, 1, 2, 4, 6, v - 1, v + 1, W - 1, W / 2} {
+					d := append([]byte{}, hs.Data...)
+					p.put(d, nv&(W-1))
+					items = append(items, item{Name: fmt.Sprintf("hostile:%s:%s.%d=%d", hs.Name, fn, occ, nv&(W-1)), Fmt: "junk", Data: d, Light: true})
+				}
+			}
+		}
+	}
 	names := make([]string, 0, len(junk))
 	for k := range junk {
 		names = append(names, k)
@@ -283,6 +306,9 @@ func failOf(kind string) error {
 
 func cutsFor(it item, tier string, rng *rand.Rand) []int {
 	total := len(it.Data)
+	if it.Light {
+		return []int{1, total / 2, total}
+	}
 	set := map[int]bool{}
 	add := func(c int) {
 		if c >= 0 && c <= total {
